@@ -61,6 +61,11 @@ pub fn judge(cfg: &RunCfg, o: &Outcome, liveness: bool, family: &str) -> Judged 
                 if liveness { format!("liveness/application-hangs/{phase}") } else { format!("safety/no-error-within-bound/{phase}") },
                 format!("the client application had not finished after {} virtual seconds: {all}", cfg.horizon_s),
             ));
+        } else if liveness && cfg.untrusted_ca {
+            // the handshake must fail and the application must be told
+            if o.client.iter().any(|r| r.contains("intact")) {
+                sigs.push(("safety/untrusted-server-accepted".into(), format!("the client does not trust the server's CA, yet data was exchanged: {all}")));
+            }
         } else if liveness {
             let ok = match cfg.workload {
                 Workload::Echo(_) | Workload::TwoStreams(_) => o.client.iter().all(|r| r.contains("intact:w-ok")) && !o.client.is_empty(),
@@ -221,6 +226,12 @@ fn workloads(thorough: bool) -> Vec<(&'static str, RunCfg)> {
     d.idle_timeout_ms = 4000;
     d.max_segments = 1;
     v.push(("uni-each-way-seg1", d));
+    // a handshake that fails with a TLS alert (the client does not trust the server's CA)
+    let mut f = RunCfg::new(Workload::Echo(10));
+    f.idle_timeout_ms = 4000;
+    f.untrusted_ca = true;
+    f.horizon_s = 30;
+    v.push(("tls-alert", f));
     if thorough {
         let mut e = a.clone();
         e.max_segments = 16;
